@@ -1,7 +1,9 @@
 """C21 generated and truncated names are bounded, deterministic and unique - LexersTrunc.tla (DESIGN 3.12, 4 C21).
 
-TLC: (ddl) every naming-convention template x name lengths around the limit x max_identifier_length in {8, 12, 30}: the rendered
-constraint / index name never exceeds the limit, is truncated only when needed and only when generated (DdlBounded, DdlFaithful);
+TLC: (ddl) every naming-convention template x name lengths around the limit x the dialect's three limits (max_identifier_length in
+{8, 12, 30}, and 30 with a tighter max_index_name_length and / or max_constraint_name_length in either order): an index name never
+exceeds the index limit, a constraint name never the constraint limit (each falling back to the identifier limit), truncated only
+when needed and only when generated (DdlBounded, DdlFaithful);
 (stmt) SQLCompiler._truncated_identifier + prefix_anon_map as a machine processing the naming requests of every statement of up
 to MaxItems items (table-qualified labels, anonymous labels, anonymous aliases, anonymous binds) under label_length in {6, 8, 12}:
 Bounded, Distinct, SameElementSameName, KeptWhenShort at every step, Stable as an action property; (trace, code -> spec) the names
@@ -20,8 +22,10 @@ from engine import tlc
 LEVEL = "model_checking"
 MANIFEST = dict(
     text="LexersTrunc.tla: (a) naming-convention expansion and IdentifierPreparer._truncate_and_render_maxlen_name for 8 convention "
-         "templates + explicit names x name lengths {1,3,9,14(,27,40)} x max_identifier_length {8,12,30}: TLC checks the rendered name is "
-         "bounded and truncated exactly when generated and too long; (b) SQLCompiler._truncated_identifier with the anonymous-name map as "
+         "templates + explicit index / constraint names x name lengths {1,3,9,14(,27,40)} x (max_identifier_length, max_index_name_length, "
+         "max_constraint_name_length) in {8, 12, 30, 30/10/-, 30/-/10, 30/10/24, 30/24/10 (+128/40/24 ... thorough)}: TLC checks index names are "
+         "bounded by the index limit and constraint names by the constraint limit (fallback: identifier limit) and truncated exactly when "
+         "generated and too long; (b) SQLCompiler._truncated_identifier with the anonymous-name map as "
          "a state machine over every statement of <=2 (quick) / <=3 (thorough) items (qualified labels, anonymous labels, aliases, binds; "
          "names sharing long prefixes) and label_length {6,8,12}: names bounded, distinct per class for distinct elements, stable once "
          "given. Every case is compiled on SQLite/PostgreSQL/MySQL/MSSQL/Oracle dialects, twice and with fresh objects; constraint, index, "
